@@ -295,6 +295,18 @@ func (f *Field) rawLattice(r *Rng, nRandomLattice int) []*big.Int {
 			add(new(big.Int).Sub(q, p))
 		}
 	}
+	// boundaries of a multiplication by a small constant c (MulBy3/5/7/11/13, non-residue multipliers of the towers): the
+	// values where c*x crosses a multiple of q, and where c*x crosses a multiple of the radix 2^(w*limbs)
+	radix := new(big.Int).Lsh(one, uint(f.WBits*f.Limbs))
+	for _, c := range []int64{3, 5, 7, 11, 13} {
+		for k := int64(1); k < c; k++ {
+			for _, base := range []*big.Int{q, radix} {
+				v := new(big.Int).Div(new(big.Int).Mul(big.NewInt(k), base), big.NewInt(c))
+				add(v)
+				add(new(big.Int).Add(v, one))
+			}
+		}
+	}
 	// per-limb lattice {0,1,2^(w-1),2^w-1,q_i,q_i-1,q_i+1}: random points of the product
 	w := uint(f.WBits)
 	mask := new(big.Int).Sub(new(big.Int).Lsh(one, w), one)
